@@ -10,15 +10,17 @@ import flake_runs as fr
 import snowing_runs as sr
 
 
-def zero_d_vs_snowflake(rep, rng, K, tt):
+def zero_d_vs_snowflake(rep, rng, K, tt, sol=None):
     sf = impl.snowflake_mod()
     prog = dict(start=20, end=-50, rate=2 / 60, holds=[], t_tot=tt, dt=1.0)
     geo = {"vial": {"geometry": {"height": 0.01, "length": 0.012, "width": 0.01}}}
+    if sol:
+        geo["solution"] = dict(sol)      # other solution constants (e.g. heavy water, T_eq = 3.82 C), same in both models
     S0 = sr.make(dim="homogeneous", height=0.01, diameter=0.01, K=K, prog=prog, extra=geo)
     sr.run(S0)
     res = S0.results.iloc[0]
     ie = int(round(float(res["t_nuc"]) * 60 / 0.1))
-    lab = "0D vs Snowflake(1,1,1) K=%g t_tot=%g" % (K, tt)
+    lab = "0D vs Snowflake(1,1,1) K=%g t_tot=%g%s" % (K, tt, " solution=%r" % sol if sol else "")
     over = dict(geo); over["snowing_parameters"] = {"dimensionality": "homogeneous", "configuration": "shelf"}
     over["vial"]["geometry"]["diameter"] = 0.01
     cfg = dict(arr="square", shape=(1, 1, 1), k={"int": 0, "ext": 0, "s0": K, "s_sigma_rel": 0}, dt=0.1, T_init=None, over=over, initIce="direct",
@@ -102,9 +104,11 @@ def check(rep, tier):
                 "nucleation times, evaporative cooling of the top surface during the vacuum window; non-trivial = every pair")
     rep.trusted = ["Coq 8.16.1 kernel (theorems on the 0D <-> Snowflake identities)", "harness/c15.py paired-run oracle; tolerances 1e-9 / 1 % / 10 %",
                    "the thermally-thin 1D -> 0D limit is asymptotic: thorough tier oracle only"]
-    for K, tt in ([(50, 5400.0)] if tier == "quick" else [(50, 5400.0), (100, 4000.0), (20, 9000.0)]):
+    hw = {"T_eq": 3.82, "solid_fraction": 0.08, "k_f": 2.05, "M_s": 0.18}
+    for K, tt, sol in ([(50, 5400.0, None), (50, 5400.0, hw)] if tier == "quick" else
+                       [(50, 5400.0, None), (50, 5400.0, hw), (100, 4000.0, {"T_eq": -0.5}), (20, 9000.0, None), (100, 4000.0, hw)]):
         try:
-            zero_d_vs_snowflake(rep, rng, K, tt)
+            zero_d_vs_snowflake(rep, rng, K, tt, sol)
         except Exception as e:
             rep.violation("pair-crash %s" % type(e).__name__, "0D vs Snowflake pair raises %r" % e, dict(K=K, t_tot=tt))
     for conf in (["VISF"] if tier == "quick" else ["shelf", "VISF"]):
